@@ -23,7 +23,7 @@ structure MPw {α} (m : M α) : Prop where
   pfx : WPfx m
 
 theorem MPw.of_mpre {α} {m : M α} (h : MPre m) : MPw m := by
-  refine ⟨MPre.magree h, fun s hne => ⟨_, ((h s).2.2.2 hne).1⟩, fun s => ?_⟩
+  refine ⟨FaultHist.MPre.magree h, fun s hne => ⟨_, ((h s).2.2.2 hne).1⟩, fun s => ?_⟩
   obtain ⟨⟨ws, ht⟩, _, hag, hhit⟩ := h s
   by_cases hq : (m s).2.dev.failed = s.dev.failed
   · refine ⟨ws, [], ht, ?_⟩
